@@ -27,7 +27,17 @@ fi
 go build -race -o "$V/bin/mc-c11race" ./cmd/c11race || { echo "BUILD-FAILED: c11race" >&2; exit 3; }
 if [ "$tier" = build ]; then echo "C11 binaries built (hooks=$hooks)"; exit 0; fi
 if [ "$hooks" = on ]; then
-  C11_RACE_BIN="$V/bin/mc-c11race" exec "$V/bin/mc-c11" "$tier"
+  # the explorer executes jet in-process: if it dies (fatal error in jet code) it is run once more, and a
+  # second death is the finding
+  budget=${VERIF_BUDGET_S:-150}; [ "$tier" = thorough ] && budget=${VERIF_BUDGET_S:-1500}
+  for attempt in 1 2; do
+    # (a thread spinning inside jet without reaching a scheduling point never hands control back: hard deadline)
+    C11_RACE_BIN="$V/bin/mc-c11race" timeout -k 10 $((2*budget+300)) "$V/bin/mc-c11" "$tier" 2> "$OV/run.err"; rc=$?
+    cat "$OV/run.err" >&2
+    if [ $rc -eq 0 ] || [ $rc -eq 1 ]; then exit $rc; fi
+    echo "C11: the explorer's process ended abnormally (exit $rc, attempt $attempt)" >&2
+  done
+  exec "$V/bin/mc" died C11 "$tier" "exit status $rc; $(head -c 3000 "$OV/run.err")"
 else
   exec "$V/bin/mc" C11-raceonly "$tier"
 fi
